@@ -614,7 +614,8 @@ class CircuitFinderSat:
                 if self._gate_type_variable(gate, p, q) in model:
                     gate_tt.append(True)
                 else:
-                    assert -self._gate_type_variable(gate, p, q) in model
+                    # The variable may be absent from the model when no clause
+                    # mentions it (every row is a don't-care): it is free then.
                     gate_tt.append(False)
 
             first_predecessor_str = (
